@@ -361,6 +361,17 @@ func genC05(t *rapid.T) CaseC05 {
 	case "ebp":
 		cc := genC12(t)
 		c.Input = c05Shape(t, c.Family, cc.EBP.Bytes(), 40)
+		if c.Family != "well-formed" && rapid.IntRange(0, 3).Draw(t, "ebp-long") == 0 {
+			// long inputs behind a valid tag: 8-bit index arithmetic must not wrap
+			n := rapid.IntRange(200, 700).Draw(t, "ebp-long-len")
+			fill := rapid.SampledFrom([]byte{0xFF, 0x80, 0x9C, 0xFE, 0x00, 0x7F}).Draw(t, "ebp-long-fill")
+			in := append([]byte{rapid.SampledFrom([]byte{0xA9, 0xDF}).Draw(t, "ebp-long-tag")}, bytes.Repeat([]byte{fill}, n)...)
+			k := rapid.IntRange(0, 3).Draw(t, "ebp-long-edits")
+			for i := 0; i < k; i++ {
+				in[rapid.IntRange(1, 12).Draw(t, "ebp-long-pos")] = rapid.Byte().Draw(t, "ebp-long-byte")
+			}
+			c.Input = in
+		}
 	case "scte35":
 		if rapid.IntRange(0, 40).Draw(t, "bigloop") == 0 {
 			c.Family = "bigloop"
@@ -942,6 +953,14 @@ func TestC05Targeted(t *testing.T) {
 			p := bytes.Repeat([]byte{0xFF}, 188)
 			p[0], p[1], p[2], p[3], p[4], p[5] = 0x47, 0x40, 0x64, 0x30, byte(aflen), flags
 			inputs = append(inputs, p)
+		}
+	}
+	// long constant fills behind each format's leading magic (index arithmetic wider than the input)
+	for _, lead := range [][]byte{{0xA9}, {0xDF}, {0xDF, 0xFF, 0x45, 0x42, 0x50, 0x30}, {0x00, 0xFC}, {0x00, 0x02}, {0x00, 0x00}, {0x00, 0x00, 0x01, 0xE0}} {
+		for _, fill := range []byte{0xFF, 0x80, 0x00, 0x7F, 0xFE} {
+			for _, n := range []int{254, 255, 256, 257, 300, 700} {
+				inputs = append(inputs, append(clone(lead), bytes.Repeat([]byte{fill}, n)...))
+			}
 		}
 	}
 	n := 0
